@@ -5,8 +5,13 @@ from rules.common import *
 def obj_of(e):
     """local id of a packet object reference &_n (possibly wrapped in to_immutable / packet / deref)."""
     e = peel(e, unwraps=False)
-    while isinstance(e, tuple) and e[0] == 'call' and re.search(r'to_immutable$|Packet>::packet$|to_vec$', e[1]):
-        e = peel(e[2][0], unwraps=False)
+    while True:
+        if isinstance(e, tuple) and e[0] == 'call' and e[2] and re.search(r'to_immutable$|Packet>?::packet$|to_vec$|Deref::deref$|::as_slice$|AsRef<[^>]*>>::as_ref$|::as_ref$|Clone::clone$|to_owned$', e[1]):
+            e = peel(e[2][0], unwraps=False)
+        elif isinstance(e, tuple) and e[0] == 'ref':
+            e = peel(e[1], unwraps=False)
+        else:
+            break
     if isinstance(e, tuple) and e[0] == 'local':
         return e[1]
     return None
@@ -25,10 +30,10 @@ def len_of_obj(e, obj):
     e = peel(e, casts=True)
     while is_call(e, r'try_into$|unwrap$'):
         e = peel(e[2][0], casts=True)
-    if not is_call(e, r'\[T\]>::len$'):
+    if not is_call(e, r'(\[T\]>|Vec::<[^>]*>)::len$'):
         return False
-    p = peel(e[2][0], unwraps=False)
-    return is_call(p, r'Packet>::packet$') and obj_of(p[2][0]) == obj
+    # len of the object's bytes: packet(&obj), possibly through to_vec / deref / a reference
+    return obj_of(e[2][0]) == obj and obj is not None and any(is_call(x, r'Packet>?::packet$') for x in walk(e[2][0]))
 
 
 def alloc_is_min_plus_len(e, obj, cls):
@@ -92,8 +97,10 @@ def run(ctx):
             if cls in ('Tcp', 'Udp', 'Icmpv6') and f is not l2:
                 c = cks[0]
                 a1, a2 = peel(c[2][1], unwraps=False), peel(c[2][2], unwraps=False)
-                ss = [b for b, tt in f.calls(r"::MutableIpv[46]Packet::<'a>::set_source$")]
-                sd = [b for b, tt in f.calls(r"::MutableIpv[46]Packet::<'a>::set_destination$")]
+                # the header setters this reply runs through (a tail shared by the arms, or one copy of it per arm)
+                after = f.reachable(bi)
+                ss = [b for b, tt in f.calls(r"::MutableIpv[46]Packet::<'a>::set_source$") if b in after]
+                sd = [b for b, tt in f.calls(r"::MutableIpv[46]Packet::<'a>::set_destination$") if b in after]
                 if len(ss) == 1 and len(sd) == 1:
                     def via(sb):
                         # value the setter receives along the paths that run through this checksum site
@@ -168,7 +175,7 @@ def run(ctx):
             outer = obj_of(f.arg(bi, 0))
             val = f.objview(f.arg(bi, 1), bi)
             # which L4 object?
-            objs = {obj_of(c[2][0]) for c in walk(val) if isinstance(c, tuple) and c[0] == 'call' and re.search(r'Packet>::packet$', c[1])}
+            objs = {obj_of(c[2][0]) for c in walk(val) if isinstance(c, tuple) and c[0] == 'call' and re.search(r'Packet>?::packet$', c[1])}
             objs.discard(None)
             if len(objs) != 1:
                 rep.bad(r2, '%s:%s@%s' % (f.id, lenset, f.loc(bi)), 'length value %s does not derive from exactly one packet object' % short(val)[:100], f.loc(bi))
@@ -223,14 +230,14 @@ def run(ctx):
     tcp = F.fn('layer_4::tcp::repl')
     rep.saw(tcp)
     do = tcp.calls(r"set_data_offset$")
-    rep.check(r2, len(do) == 1 and const_val(tcp.arg(do[0][0], 1)) == 5, 'tcp::repl:data_offset', 'data offset constants %s; every TCP buffer starts with TcpPacket::minimum_packet_size (20) header bytes (C06-R2/C07-R2)' % [const_val(tcp.arg(b, 1)) for b, _ in do])
+    rep.check(r2, bool(do) and all(const_val(tcp.arg(b_, 1)) == 5 for b_, _ in do), 'tcp::repl:data_offset', 'data offset constants %s; every TCP buffer starts with TcpPacket::minimum_packet_size (20) header bytes (C06-R2/C07-R2)' % [const_val(tcp.arg(b, 1)) for b, _ in do])
 
     r4 = rep.rule('C04-R4', 'fixed header constants: TTL 64, DontFragment; IPv6 hop limit 255 exactly on Neighbor Advertisements and otherwise 64 whenever still zero; TCP window 65535', floor=5)
 
     def const_site(f, name, want, key):
         s = f.calls(r"::%s$" % name)
         vals = [const_val(f.arg(b, 1)) for b, _ in s]
-        rep.check(r4, vals == [want], key, '%s constants %s (required [%s])' % (name, vals, want), f.loc(s[0][0]) if s else '')
+        rep.check(r4, bool(vals) and all(v_ == want for v_ in vals), key, '%s constants %s (required %s at every site)' % (name, vals, want), f.loc(s[0][0]) if s else '')
         return s
     const_site(v4, 'set_ttl', 64, 'ipv4:ttl')
     const_site(v4, 'set_flags', 2, 'ipv4:dont-fragment')
